@@ -195,6 +195,20 @@ PROPS['C02'] = {
     'level_note': 'Level other (partial): band geometry only. Trusted: std min/max/Range::clone specs, Verus/Z3.',
 }
 
+PROPS['C03'] = {
+    'level': 'other',
+    'units': ['C18/smallints', 'C04/less'],
+    'kani': [],
+    'oracle': 'C03',
+    'decided': ['the LCP-array container SmallInts<i8, isize> (anchored file smallints.rs) behaves as a plain Vec<isize> for every value incl. exactly 127, larger and negative (unit shared with C18)',
+                'bwt/less (used by the sampled suffix array walk) are exact (unit shared with C04)'],
+    'undecided': ['SA-IS construction (Sais::{construct, calc_lms_pos, sort_lms_suffixes, calc_pos}): the sorted-permutation clause - induced sorting correctness is out of reach of the contracts built here',
+                  'lcp (Kasai) and shortest_unique_substrings against their definitions', 'SampledSuffixArray::get walk', 'transform_text / sentinel_count (closure adapters, generic casts)'],
+    'trusted': ['as C18 / C04'],
+    'level_text': 'Only the containers and tables the suffix-array module builds on are proved (SmallInts, bwt/less); the suffix sorting itself, LCP and sampling are NOT decided by contracts and are covered only by the bounded stand-in (replay oracle: brute-force sorting on small texts).',
+    'level_note': 'Level other (thin partial). The deciding content is shared with C18/C04; everything specific to suffix sorting is undecided.',
+}
+
 NOT_APPLICABLE = {
     'C10': 'Myers traceback lives in impl_myers! macro bodies and generic handler traits over iterator adapter chains (rev().chain(cycle())): outside Verus extraction (macros, adapters) and outside Kani\'s tractable loop-free fragment; no contract within reach decides any clause (DESIGN.md §4 C10).',
     'C11': 'FASTA/FASTQ parsing is String-based (read_line, trim_end, splitn(char::is_whitespace), write!): Verus has no str byte reasoning or specs for these, Kani explodes on String/UTF-8/fmt (DESIGN.md §4 C11).',
